@@ -169,6 +169,56 @@ impl Check for StepCheck {
 
 fn no_enum(_c: &StepCheck, _cx: &mut Ctx) {}
 
+/// "Any other mode number is recorded without any effect on content, cursor or geometry" has a
+/// consequence for every other property: with such a number set, its operations behave exactly as
+/// before. Every mode number 0..=130 and the 40 numbers other terminals define, private and ANSI,
+/// is set on a small dense screen; then the check's own candidates are judged from three cursor
+/// positions (column 0 of a lower row, mid-row, pending wrap).
+pub fn modes_sweep(chk: &StepCheck, cx: &mut Ctx, share: f64) -> bool {
+    let (c, l) = (5u32, 3u32);
+    let mut nums: Vec<u32> = (0..=130).collect();
+    nums.extend(gen::OTHER_MODES.iter().cloned());
+    nums.sort();
+    nums.dedup();
+    let mut k = 0u64;
+    for n in nums {
+        for private in [true, false] {
+            k += 1;
+            if !cx.mine(k) {
+                continue;
+            }
+            // the implemented modes are the property's own business
+            if (private && [3u32, 5, 6, 7, 25].contains(&n)) || (!private && [4u32, 20, 96, 160, 192, 224, 800].contains(&n)) {
+                continue;
+            }
+            if !cx.begin_group(&format!("with mode {}{} set", if private { "?" } else { "" }, n)) {
+                continue;
+            }
+            for pos in 0..3u32 {
+                let mut setup = vec![Op::Feed("\x1b[?7labcde\r\n\x1b[31mfghij\r\n\x1b[0;4mklmno\x1b[m\x1b[?7h".into()), Op::Api(Call::SetMode(vec![n], private))];
+                match pos {
+                    0 => setup.push(Op::Api(Call::CursorPosition(Some(2), Some(1)))),
+                    1 => setup.push(Op::Api(Call::CursorPosition(Some(2), Some(3)))),
+                    _ => {
+                        setup.push(Op::Api(Call::CursorPosition(Some(2), Some(5))));
+                        setup.push(Op::Api(Call::Draw("J".into())));
+                    }
+                }
+                if let Some((base, pre)) = reach(cx, c, l, &setup) {
+                    let mut rng = Rng::new(k * 3 + pos as u64);
+                    let cands = (chk.cands)(&mut rng, &pre, cx.tier);
+                    fan_out(cx, chk.id, &chk.owns, c, l, &setup, &base, &pre, &cands);
+                }
+            }
+            if cx.used() > share || cx.out_of_time() {
+                return false;
+            }
+        }
+    }
+    cx.stats.count("modes_sweeps_completed", 1);
+    true
+}
+
 /// Every Unicode scalar value (this worker's share of the 1 112 064) through `mk`, each candidate
 /// judged step by step from the state reached by `setup` on a `c` x `l` screen. Returns true if
 /// the sweep ran to completion within `share` of the time budget.
@@ -387,6 +437,9 @@ fn c05_cands(rng: &mut Rng, pre: &Snap, _t: Tier) -> Vec<Cand> {
 }
 
 fn c05_enum(chk: &StepCheck, cx: &mut Ctx) {
+    if modes_sweep(chk, cx, 0.25) {
+        cx.stats.exhaustive_parts.insert("every mode number 0..=130 and 40 numbers other terminals define, private and ANSI, set on a dense 5x3 screen: the check's candidates judged from three cursor positions".into());
+    }
     // more columns than the largest parameter the parser can deliver: blank one-line screens,
     // cursor near the left edge, sampled parameters (incl. 9998, 9999, absent, 0)
     for (i, c) in [10001u32, 10050, 12000].iter().enumerate() {
@@ -504,18 +557,36 @@ fn c04_cands(rng: &mut Rng, _pre: &Snap, _t: Tier) -> Vec<Cand> {
     // the character set in use changed by a shuffle of shifts and designations right before the
     // draw (any order: designate the slot in use, the slot not in use, shift twice, ...): what is
     // drawn goes through the table that is in use NOW
-    for _ in 0..4 {
+    for round in 0..6 {
+        let shuffle = |rng: &mut Rng, ops: &mut Vec<Op>| {
+            for _ in 0..1 + rng.below(4) {
+                ops.push(Op::Api(match rng.below(8) {
+                    0 => Call::ShiftOut,
+                    1 => Call::ShiftIn,
+                    2 => Call::SaveCursor,
+                    3 => Call::RestoreCursor,
+                    4 => {
+                        if rng.below(4) == 0 {
+                            Call::Reset
+                        } else {
+                            Call::CarriageReturn
+                        }
+                    }
+                    _ => Call::DefineCharset((*rng.pick(&["B", "0", "U", "V"])).into(), (*rng.pick(&["(", ")"])).into()),
+                }));
+            }
+        };
         let mut ops: Vec<Op> = Vec::new();
-        for _ in 0..1 + rng.below(4) {
-            ops.push(Op::Api(match rng.below(4) {
-                0 => Call::ShiftOut,
-                1 => Call::ShiftIn,
-                _ => Call::DefineCharset((*rng.pick(&["B", "0", "U", "V"])).into(), (*rng.pick(&["(", ")"])).into()),
-            }));
-        }
+        shuffle(rng, &mut ops);
         let n = 1 + rng.usize(4);
-        let s: String = (0..n).map(|_| *rng.pick(&['q', '~', '_', 'x', 'a', '\u{e9}', '\u{fe}', '\u{2502}', '`'])).collect();
-        ops.push(Op::Api(Call::Draw(s)));
+        let s: String = (0..n).map(|_| *rng.pick(&['q', '~', '_', 'x', 'a', '\u{e9}', '\u{fe}', '\u{2502}', '`', '\u{18}', '\u{ad}', '\u{7f}', '\u{1}'])).collect();
+        ops.push(Op::Api(Call::Draw(s.clone())));
+        if round % 2 == 1 {
+            // ... and the very same string again after the sets changed once more (whatever was
+            // remembered about "this character in this slot" is stale now)
+            shuffle(rng, &mut ops);
+            ops.push(Op::Api(Call::Draw(s)));
+        }
         v.push(Cand { ops });
     }
     v
@@ -529,9 +600,12 @@ pub static C04: StepCheck = StepCheck {
     profile: || Profile { wide: 8, irm: 30, pending_wrap: 35, charset8: 20, ..Default::default() },
     cands: c04_cands,
     enumerated: |chk, cx| {
+        if modes_sweep(chk, cx, 0.2) {
+            cx.stats.exhaustive_parts.insert("every mode number 0..=130 and 40 numbers other terminals define, private and ANSI, set on a dense 5x3 screen: the draw candidates judged from three cursor positions".into());
+        }
         // every Unicode scalar value drawn between two letters in the middle of a row, and at the
         // last column followed by a letter (wrap / clip), through the API
-        let done = unicode_sweep(chk, cx, 6, 2, &[Op::Api(Call::CursorPosition(Some(1), Some(2)))], "draw", 0.45, &|ch| {
+        let done = unicode_sweep(chk, cx, 6, 2, &[Op::Api(Call::CursorPosition(Some(1), Some(2)))], "draw", 0.6, &|ch| {
             vec![
                 Cand { ops: vec![Op::Api(Call::Draw(format!("a{}b", ch)))] },
                 Cand { ops: vec![Op::Api(Call::CursorPosition(Some(1), Some(6))), Op::Api(Call::Draw(ch.to_string())), Op::Api(Call::Draw("z".into()))] },
@@ -580,6 +654,16 @@ fn c06_cands_full(full: bool, rng: &mut Rng, pre: &Snap) -> Vec<Cand> {
 }
 
 fn c06_enum(chk: &StepCheck, cx: &mut Ctx) {
+    if modes_sweep(chk, cx, 0.25) {
+        cx.stats.exhaustive_parts.insert("every mode number 0..=130 and 40 numbers other terminals define, private and ANSI, set on a dense 5x3 screen: the check's candidates judged from three cursor positions".into());
+    }
+    // a row whose only content is one character, whatever it is, scrolls like any other row
+    let done = unicode_sweep(chk, cx, 3, 2, &[], "scroll", 0.4, &|ch| {
+        vec![Cand { ops: vec![Op::Api(Call::CursorPosition(Some(2), Some(1))), Op::Api(Call::Draw(ch.to_string())), Op::Api(if (ch as u32) % 2 == 0 { Call::Index } else { Call::Linefeed })] }]
+    });
+    if done {
+        cx.stats.exhaustive_parts.insert("every Unicode scalar value as the only content of the bottom row of a 3x2 screen, then IND / LF".into());
+    }
     let mut geoms = Vec::new();
     for l in 1..=6u32 {
         for c in 1..=4u32 {
@@ -643,9 +727,12 @@ fn c07_cands_full(full: bool, rng: &mut Rng, pre: &Snap) -> Vec<Cand> {
 }
 
 fn c07_enum(chk: &StepCheck, cx: &mut Ctx) {
+    if modes_sweep(chk, cx, 0.25) {
+        cx.stats.exhaustive_parts.insert("every mode number 0..=130 and 40 numbers other terminals define, private and ANSI, set on a dense 5x3 screen: the check's candidates judged from three cursor positions".into());
+    }
     // whatever a cell holds, an erase makes it a blank: every Unicode scalar value drawn with the
     // very rendition the erase will use, then erased by EL 2 / ECH / ED 2
-    let done = unicode_sweep(chk, cx, 4, 1, &[], "erase", 0.3, &|ch| {
+    let done = unicode_sweep(chk, cx, 4, 1, &[], "erase", 0.5, &|ch| {
         let k = (ch as u32) % 3;
         let erase = match k {
             0 => Call::EraseInLine(Some(2)),
@@ -849,6 +936,29 @@ fn c08_enum(chk: &StepCheck, cx: &mut Ctx) {
                         if cx.mine(k) {
                             sgr_then_draw(&mut cands, vec![n, 2, r, g, b]);
                             sgr_then_draw(&mut cands, vec![31, n, 5, b, 4]);
+                        }
+                    }
+                }
+            }
+        }
+        // an out-of-range colour triple that collides with a valid one under the obvious packing
+        // (r<<16 | g<<8 | b), in the same list and in the next call: it must still be ignored
+        for r in [0u32, 1, 2, 255] {
+            for g in [0u32, 1, 2, 255] {
+                for b in [0u32, 1, 255] {
+                    let mut aliases: Vec<[u32; 3]> = Vec::new();
+                    if g >= 1 {
+                        aliases.push([r, g - 1, b + 256]);
+                    }
+                    if r >= 1 {
+                        aliases.push([r - 1, g + 256, b]);
+                        aliases.push([r - 1, g + 255, b + 256]);
+                    }
+                    for a in aliases {
+                        k += 1;
+                        if cx.mine(k) {
+                            sgr_then_draw(&mut cands, vec![38, 2, r, g, b, 48, 2, a[0], a[1], a[2]]);
+                            cands.push(Cand { ops: vec![Op::Api(Call::Sgr(vec![48, 2, r, g, b])), Op::Api(Call::Sgr(vec![38, 2, a[0], a[1], a[2]])), Op::Api(Call::Draw("x".into()))] });
                         }
                     }
                 }
@@ -1150,6 +1260,17 @@ fn c13_cands(rng: &mut Rng, pre: &Snap, _t: Tier) -> Vec<Cand> {
 }
 
 fn c13_enum(chk: &StepCheck, cx: &mut Ctx) {
+    if modes_sweep(chk, cx, 0.25) {
+        cx.stats.exhaustive_parts.insert("every mode number 0..=130 and 40 numbers other terminals define, private and ANSI, set on a dense 5x3 screen: the check's candidates judged from three cursor positions".into());
+    }
+    // whatever a cell holds, it travels with the shift: every Unicode scalar value as the
+    // right-most content of a row (default rendition), then DCH 1 / ICH 1 at column 0
+    let done = unicode_sweep(chk, cx, 6, 1, &[], "shift", 0.4, &|ch| {
+        vec![Cand { ops: vec![Op::Api(Call::Draw(format!("ab{}", ch))), Op::Api(Call::CursorPosition(Some(1), Some(1))), Op::Api(if (ch as u32) % 2 == 0 { Call::DeleteCharacters(Some(1)) } else { Call::InsertCharacters(Some(1)) })] }]
+    });
+    if done {
+        cx.stats.exhaustive_parts.insert("every Unicode scalar value as the right-most content of a row, then DCH 1 / ICH 1 at column 0 (6x1 screen)".into());
+    }
     let maxlen = if cx.quick() { 2 } else { 3 };
     let prof = Profile { sparse_rows: 50, no_resize: true, irm: 25, ..Default::default() };
     let mut complete = true;
@@ -1369,6 +1490,9 @@ fn c14_cands(rng: &mut Rng, pre: &Snap, _t: Tier) -> Vec<Cand> {
 
 /// "a stack": more levels than any fixed-size buffer or small counter would hold
 fn c14_enum(chk: &StepCheck, cx: &mut Ctx) {
+    if modes_sweep(chk, cx, 0.25) {
+        cx.stats.exhaustive_parts.insert("every mode number 0..=130 and 40 numbers other terminals define, private and ANSI, set on a dense 5x3 screen: the check's candidates judged from three cursor positions".into());
+    }
     let depth: u32 = if cx.quick() { 4200 } else { 16500 };
     for (i, via_parser) in [false, true].iter().enumerate() {
         if !cx.mine(i as u64) || !cx.begin_group(&format!("deep nesting {} parser={}", depth, via_parser)) {
@@ -1574,6 +1698,9 @@ fn c18_cands(rng: &mut Rng, pre: &Snap, _t: Tier) -> Vec<Cand> {
 }
 
 fn c18_enum(chk: &StepCheck, cx: &mut Ctx) {
+    if modes_sweep(chk, cx, 0.25) {
+        cx.stats.exhaustive_parts.insert("every mode number 0..=130 and 40 numbers other terminals define, private and ANSI, set on a dense 5x3 screen: the check's candidates judged from three cursor positions".into());
+    }
     let mut complete = true;
     for w in 1..=140u32 {
         if !cx.mine(w as u64) {
